@@ -278,6 +278,62 @@ def witness_basic() -> dict:
     return finish(scn)
 
 
+def witness_trigger_queued() -> dict:
+    """The seeded-regression scenario (/verif/seeded/C32/demo.py): `a => b`, queue limit 1, clock-expire = b(PT1H);
+    while a has its job the operator triggers b at 00:10: b is spawned and lands in the full queue; the clock moves
+    to 02:00 with b still queued.  b was triggered manually, so it must not expire, and it runs when a is done."""
+    scn = {"tasks": ["a", "b"], "ncycles": 1, "expire": {"b": "PT1H"}, "succ_opt": {"a": False, "b": False},
+           "edges": [{"p": "a", "out": "succeeded", "off": 0, "c": "b"}], "solo": ["a"], "runahead": 1,
+           "queue_limit": 1, "retries": {}, "fail_rate": 0.0, "customs": {}, "seed": 2, "disorder": 0.0, "max_ticks": 30,
+           "clock": [600, 600] + [7200] * 22,
+           "ops": [{"tick": 1, "cmd": "force_trigger_tasks", "args": {"tasks": ["20000101/b"], "flow": ["all"]}},
+                   {"tick": 8, "cmd": "x_noop", "args": {}}]}
+    return finish(scn)
+
+
+def gen_qtrig(r: random.Random) -> dict:
+    """Manual trigger of a clock-expire task that is not flagged queued (not yet spawned / waiting on a parent /
+    held / runahead-limited) or already queued, while a limited queue is full, shortly before the clock crosses
+    the target's expiry time."""
+    nt = r.randint(3, 5)
+    tasks = NAMES[:nt]
+    ncyc = r.randint(2, 4)
+    mode = r.choice(["dep", "dep", "held", "runahead", "queued"])
+    off = r.choice(["", "PT30M", "PT1H", "PT6H", "P1D", "-PT1H"])
+    expire = {"b": off}
+    if nt > 3 and r.random() < 0.3:
+        expire[r.choice(tasks[2:])] = r.choice(OFFS)[0]
+    succ_opt = {t: False for t in tasks}
+    succ_opt["b"] = r.random() < 0.5
+    edges = []
+    if mode in ("dep", "held"):
+        edges.append({"p": "a", "out": r.choice(["succeeded", "succeeded", "started"]), "off": 0, "c": "b"})
+    if r.random() < 0.6:
+        edges.append({"p": "b", "out": "expired", "off": 0, "c": tasks[-1]})
+    used = {e["c"] for e in edges}
+    runahead = r.choice([0, 1]) if mode == "runahead" else r.choice([1, 2, 3])
+    day = r.randint(min(runahead + 1, ncyc - 1), ncyc - 1) if mode == "runahead" else r.randint(0, min(1, ncyc - 1))
+    scn = {"tasks": tasks, "ncycles": ncyc, "expire": expire, "succ_opt": succ_opt, "edges": edges,
+           "solo": [t for t in tasks if t not in used], "runahead": runahead,
+           "queue_limit": r.choice([1, 1, 1, 2]), "retries": {}, "fail_rate": 0.0, "customs": {},
+           "seed": r.randrange(1 << 20), "disorder": 0.0, "max_ticks": 30, "family": "qtrig:" + mode}
+    tid = f"{point_str(day)}/b"
+    k1 = r.randint(1, 5)
+    k2 = k1 + r.choice([0, 1, 1, 2, 3, 5])
+    tgt = exp_time(scn, day, "b")
+    d = r.choice([0, 1, 3600, 90000])
+    scn["clock"] = [tgt - r.choice([1, 3600])] * k2 + [tgt + d] * (24 - k2)
+    ops = [{"tick": k1, "cmd": "force_trigger_tasks", "args": {"tasks": [tid], "flow": ["all"]}}]
+    if mode == "held":
+        ops.append({"tick": 0, "cmd": "hold", "args": {"tasks": [tid]}})
+        if r.random() < 0.4:
+            ops.append({"tick": k2 + r.randint(1, 3), "cmd": "release", "args": {"tasks": [tid]}})
+    scn["ops"] = sorted(ops, key=lambda o: o["tick"])
+    keep_alive(scn, k2 + 4)
+    scn["max_ticks"] = k2 + 10
+    return finish(scn)
+
+
 def witness_edges() -> dict:
     """Boundary and flag cases in one run: a(PT1H) is held and parentless; the clock stands one second before
     its expiry time for 8 iterations (nothing expires), then exactly at it (the held task expires: `>=`);
@@ -299,7 +355,8 @@ def witness_edges() -> dict:
 # ---------------------------------------------------------------------------
 def compact(trace) -> dict:
     """Keep what the oracle and the Coq case need."""
-    iters, hist = [], []
+    iters, hist, trigs = [], [], []
+    qot = None
     ever, cur = set(), None
     finished = set()      # instances removed from the pool while they belonged to a flow
     info = None
@@ -333,6 +390,12 @@ def compact(trace) -> dict:
             hist.append([tick, "remove", list(i), e["reason"]])
         elif k == "manual":
             hist.append([tick, "manual", e["id"]])
+        elif k == "qot_begin":
+            qot = e
+        elif k == "qot_end":
+            if qot is not None:
+                trigs.append({"tick": tick, "before": qot["t"], "after": e["t"], "in_pool": qot["in_pool"]})
+            qot = None
         elif k == "submit":
             for p, n, sn in e["jobs"]:
                 st = next((s for pp, nn, s in e["status"] if (pp, nn) == (p, n)), None)
@@ -427,7 +490,7 @@ def compact(trace) -> dict:
             soo = []
         elif phase != "pass" and k == "spawn" and soo and not soo[-1]["ric"]:
             hist.append([tick, "child", soo[-1]["id"], e["t"]["id"], soo[-1]["out"]])
-    return {"info": info, "iters": iters, "hist": hist, "ever": sorted(ever)}
+    return {"info": info, "iters": iters, "hist": hist, "ever": sorted(ever), "trigs": trigs}
 
 
 # ---------------------------------------------------------------------------
@@ -570,9 +633,14 @@ def case_term(scn, res):
                 q.clist(q.cN(nb.iid(i)) for i in (it["released"] or [])),
                 q.clist(subs),
                 "None" if t_final == t_after else f"(Some {t_final})"))
+        gs = []
+        for g in res.get("trigs", []):
+            b, a = g["before"], g["after"]
+            limited = bool(a["inq"]) and not b["queued"]
+            gs.append(q.capp("mkTrig", c_task(nb, b), q.cbool(limited), c_task(nb, a)))
     except (ValueError, KeyError):
         return None
-    return f"(let e := {env} in (e, {q.clist(ks)}))"
+    return f"(let e := {env} in (e, {q.clist(ks)}, {q.clist(gs)}))"
 
 
 # ---------------------------------------------------------------------------
@@ -694,6 +762,30 @@ def oracle(scn, res):
                 if t["status"] == "expired" and (t["inq"] or t["queued"] or t["wojp"] or t["trig"]):
                     return (f"{tag}, {what}: expired task {t['id']} is queued={t['queued']} in-queue={t['inq']} "
                             f"awaiting-job-prep={t['wojp']} to-trigger-now={t['trig']}")
+    # a trigger command exempts its target from expiry, whatever state the target was in, from the
+    # moment of the command until a job has been submitted for it (stated from the command, not from
+    # the scheduler's own flag)
+    for g in res.get("trigs", []):
+        b, a = g["before"], g["after"]
+        what = ("queued" if b["queued"] else "held" if b["held"] else "runahead-limited" if b["runahead"]
+                else "not queued")
+        if not a["manual"]:
+            return (f"trigger command (tick {g['tick']}): target {a['id']} ({b['status']}, {what}) is left without "
+                    f"the manual-trigger flag (queued={a['queued']}): it is not exempt from clock expiry")
+        if a["status"] != "waiting":
+            return f"trigger command (tick {g['tick']}): target {a['id']} is left in status {a['status']}"
+    exempt = {}
+    for h in hist:
+        kind = h[1]
+        if kind == "manual":
+            exempt[tuple(h[2])] = h[0]
+        elif kind in ("submit", "remove"):
+            exempt.pop(tuple(h[2]), None)
+        elif kind == "expired":
+            i = tuple(h[2])
+            if i in exempt:
+                return (f"{list(i)} clock-expired (iteration {h[5]}, clock {h[4]}) although it was triggered manually "
+                        f"at tick {exempt[i]} and no job has been submitted for it since")
     # history: (b) at most once, (c) never submitted after expiry
     last = {}
     for h in hist:
@@ -775,24 +867,27 @@ class ExpireStream(Stream):
     n_hashseeds = 16
     shard_size = 40
     impl_timeout = 3000
-    n_quick, n_thorough_wf = 24, 16
+    n_quick, n_thorough_wf, n_qtrig = 14, 16, 8
     rule = ("generated date-cycling workflows (P1D from 2000-01-01, 2-4 cycles, 2-5 tasks, 1-3 clock-expire tasks with "
             "offsets from {none, PT0S, PT30M, PT1H, PT6H, P1D, P1DT12H, -PT1H, -PT6H, -P1D}, :expired? / :started / "
             ":failed? / success edges, same-cycle and [-P1D], AND of several lines, runahead P0-P3, queue limit 1-2, "
             "execution retries with a long delay, job failures, hold / release / trigger / trigger --flow=none commands) "
             "x virtual clock schedules (ramp, step across a chosen expiry time at a chosen main-loop iteration with "
             "offset -1 s / 0 / +1 s / hours, exact hit, all past, never, random); thorough: every iteration 0..11 as the "
-            "crossing point x offset {-1, 0, +1}; one Coq checkpoint per main-loop iteration; "
+            "crossing point x offset {-1, 0, +1}; plus a `qtrig` family: queue limit 1-2 kept full by parentless tasks, "
+            "`cylc trigger` of a clock-expire instance that is not yet spawned / waiting on a parent / held / "
+            "runahead-limited / already queued, 0-5 iterations before the clock crosses its expiry time; one Coq "
+            "checkpoint per main-loop iteration and one per queue_or_trigger call; "
             "non-trivial = distinct (workflow, clock, commands) with at least one expiry")
 
     def corpus(self):
-        return [witness_successor(), witness_basic(), witness_edges()]
+        return [witness_successor(), witness_basic(), witness_edges(), witness_trigger_queued()]
 
     def gen(self, rng, tier):
         r = random.Random(rng.randrange(1 << 30))
         if tier == "quick":
-            return [gen_scenario(r) for _ in range(self.n_quick)]
-        out = [gen_scenario(r) for _ in range(6 * self.n_quick)]
+            return [gen_scenario(r) for _ in range(self.n_quick)] + [gen_qtrig(r) for _ in range(self.n_qtrig)]
+        out = [gen_scenario(r) for _ in range(6 * self.n_quick)] + [gen_qtrig(r) for _ in range(16 * self.n_qtrig)]
         for _ in range(self.n_thorough_wf):
             wf = gen_workflow(r)
             ops = gen_ops(r, wf)
@@ -808,7 +903,7 @@ class ExpireStream(Stream):
 
     def search(self, rng, tier):
         r = random.Random(rng.randrange(1 << 30))
-        return [gen_scenario(r) for _ in range(2 * self.n_quick)]
+        return [gen_scenario(r) for _ in range(2 * self.n_quick)] + [gen_qtrig(r) for _ in range(2 * self.n_qtrig)]
 
     def impl(self, cases):
         import time as _t
@@ -902,7 +997,13 @@ META = {
         "c32_expired_is_stable -- the invariant `unique ids; tasks_to_trigger_now / waiting_on_job_prep only for manual tasks; an "
         "expired task is in no queue, not flagged queued, not awaiting job preparation` is preserved by every operation, every job "
         "submission is for a task that is not expired, and an expired task stays expired until a manual trigger, a job message or its "
-        "removal. The clause one would add -- a runahead-limited parentless task that expires hands over to its next instance as on "
+        "removal. Manual triggers: c32_trigger_marks_manual_in_every_state (what queue_or_trigger does to a target in ANY "
+        "state -- queued, not queued with the queue limit reached, held, runahead-limited, just spawned by the command -- leaves it "
+        "flagged manual, waiting and ineligible at every clock value) and c32_triggered_exempt_until_submitted / "
+        "c32_manual_exempt_until_submitted (over all continuations, every expiry event of a triggered instance is preceded by a job "
+        "submission for it or its removal); every real queue_or_trigger call is compared with the model function inside Coq "
+        "(check_trig) and the oracle states the exemption from the command, not from the scheduler's own flag. "
+        "The clause one would add -- a runahead-limited parentless task that expires hands over to its next instance as on "
         "every other removal (c32_remove_spawns_successor) -- is REFUTED in the faithful model "
         "(c32_expiry_keeps_parentless_chain_refuted, c32_pass_never_spawns_successor) and on the real scheduler: genuine defect, known "
         "finding, fix proposed. Tie: generated date-cycling workflows with positive / negative / zero clock-expire offsets run on the "
@@ -913,7 +1014,8 @@ META = {
         "hypotheses (wf_state, pool_ok) are evaluated on every real snapshot. Oracle (implementation only, reference semantics of the "
         "generated graph): every expiry was waiting / not manual / past its time, every eligible task expired, nothing else changed, "
         "children reached = graph children, expiry times = cycle point + offset, no job after expiry without a manual trigger, at most "
-        "one expiry per instance, nothing expired is queued / awaiting preparation."),
+        "one expiry per instance, nothing expired is queued / awaiting preparation; every trigger command leaves its target flagged manual, "
+        "and a triggered instance does not expire before a job has been submitted for it."),
     "level_note": (
         "Model/Expire.v is a hand model. Graph children, parentless successors and expiry times given to it are computed by "
         "vp/props/c32.py from the generated workflow (not read from cylc) and cross-checked by the oracle against the implementation's "
